@@ -25,6 +25,8 @@ from concurrent.futures import ThreadPoolExecutor
 from pathlib import Path
 
 ROOT = Path(__file__).resolve().parent.parent
+# self-tests against mutated copies redirect evidence / replay output so that committed evidence is not overwritten
+OUT = Path(os.environ.get("RTMON_OUT_DIR", str(ROOT)))
 PY = "/venv/bin/python"
 KNOWN_FILE = ROOT / "known_findings.txt"
 
@@ -196,8 +198,8 @@ def verdict(prop, wl, tier, seed, results, t0, total, nshards):
     by_mech = collections.defaultdict(list)
     for v in unknown:
         by_mech[(v["monitor"], v["mechanism"])].append(v)
-    rp = ROOT / "replays"
-    rp.mkdir(exist_ok=True)
+    rp = OUT / "replays"
+    rp.mkdir(parents=True, exist_ok=True)
     n_files = 0
     for (mon, mech), vs in sorted(by_mech.items()):
         v = vs[0]
@@ -209,7 +211,7 @@ def verdict(prop, wl, tier, seed, results, t0, total, nshards):
             "monitor": mon, "mechanism": mech, "occurrences": len(vs),
             "case": v.get("case"), "shard": v.get("shard"), "witness": v["witness"], "all_props": v["props"],
         }, indent=1, ensure_ascii=False))
-        lines.append(f"VIOLATION property={prop} replay={path.relative_to(ROOT)}")
+        lines.append(f"VIOLATION property={prop} replay={path.relative_to(ROOT) if OUT == ROOT else path}")
     for (p, mech), n in sorted(known_seen.items()):
         print(f"KNOWN-FINDING: property={p} mechanism={mech} {known[(p, mech)]} (observed {n}x in this run)")
     evidence = {
@@ -243,8 +245,8 @@ def verdict(prop, wl, tier, seed, results, t0, total, nshards):
         ex = wl.EXHAUSTIVE(tier, counters)
         if ex:
             evidence["coverage"].update(ex)
-    (ROOT / "evidence").mkdir(exist_ok=True)
-    (ROOT / "evidence" / f"{prop}.json").write_text(json.dumps(evidence, indent=1, ensure_ascii=False))
+    (OUT / "evidence").mkdir(parents=True, exist_ok=True)
+    (OUT / "evidence" / f"{prop}.json").write_text(json.dumps(evidence, indent=1, ensure_ascii=False))
     for line in lines:
         print(line)
     if unknown:
